@@ -161,7 +161,10 @@ Proof.
   induction ps as [|p ps IH]; [cbn; lia|].
   destruct ps as [|p' ps].
   - cbn. lia.
-  - rewrite join_cons by discriminate. rewrite !app_length, IH. cbn [map list_sum length]. lia.
+  - rewrite join_cons by discriminate. rewrite !app_length, IH. cbn [map list_sum length].
+    replace (S (length ps) - 1)%nat with (length ps) by lia.
+    replace (S (S (length ps)) - 1)%nat with (S (length ps)) by lia.
+    rewrite Nat.mul_succ_r. unfold list_sum. cbn [fold_right]. lia.
 Qed.
 
 (* ------------------------------------------------------------------ utf-8 on ASCII *)
@@ -186,7 +189,7 @@ Proof. induction p as [|x p IH]; [destruct s; reflexivity|]. cbn. rewrite N.eqb_
 Lemma expect_inv p : forall s r, expect p s = Some r -> s = p ++ r.
 Proof.
   induction p as [|x p IH]; intros s r H.
-  - destruct s; cbn in H; congruence.
+  - destruct s; cbn in H; inversion H; reflexivity.
   - destruct s as [|y s]; cbn in H; [discriminate|].
     destruct (N.eqb x y) eqn:E; [|discriminate]. apply N.eqb_eq in E. subst y.
     cbn. f_equal. now apply IH.
